@@ -1,0 +1,21 @@
+//go:build verif
+
+// Verification hooks for property C10 (read-only): compiled only with -tags verif.
+
+package obfs3
+
+import "net"
+
+// VerifC10Buffered reports the number of bytes held in the connection's handshake
+// receive buffer (rxBuf; 0 once it has been released).  ok is false when c is not an
+// obfs3 connection.  Must only be called while no Read is in progress.
+func VerifC10Buffered(c net.Conn) (n int, ok bool) {
+	oc, ok := c.(*obfs3Conn)
+	if !ok {
+		return 0, false
+	}
+	if oc.rxBuf == nil {
+		return 0, true
+	}
+	return oc.rxBuf.Len(), true
+}
